@@ -103,9 +103,17 @@ func (e *Exec) loopEnv(st *State, n ast.Node, inner token.Pos) *SpecEnv {
 		return v, ok
 	}
 	pk := e.curPkg()
+	hidden := e.curHidden
 	env.goName = func(name string, s *State) (Value, bool) {
+		if name == "$idx" {
+			if hidden != nil {
+				v, ok := s.store[hidden]
+				return v, ok
+			}
+			return nil, false
+		}
 		depth := 0
-		for strings.HasPrefix(name, "$") && len(name) > 1 && name[1] != 'a' {
+		for strings.HasPrefix(name, "$") && len(name) > 1 {
 			name = name[1:]
 			depth++
 		}
@@ -152,6 +160,13 @@ type loopDesc struct {
 }
 
 func (e *Exec) loopCut(st *State, d loopDesc) []Outcome {
+	savedHidden := e.curHidden
+	if len(d.extra) > 0 {
+		e.curHidden = d.extra[0]
+	} else {
+		e.curHidden = nil
+	}
+	defer func() { e.curHidden = savedHidden }()
 	spec, key := e.loopSpec(d.node)
 	var invs []*Clause
 	if spec != nil {
